@@ -69,7 +69,7 @@ enum Class {
 pub struct Tr {
     pub ecu: String,
     pub lc: u32,
-    pub serial: u32,
+    pub serial: u64,
     /// announced file name; `$ROOT` is replaced by the sandbox root at run time
     pub name: String,
     /// original file content (hex in the case JSON)
@@ -105,7 +105,7 @@ impl Tr {
 pub struct Bogus {
     pub ecu: String,
     pub lc: u32,
-    pub serial: u32,
+    pub serial: u64,
     pub name: String,
     pub nr_packages: u64,
     pub buffer_size: u64,
@@ -241,6 +241,14 @@ impl Enc {
         self.u32(TI_U32);
         self.u32(x);
     }
+    /// serials that fit 32 bits are logged as 32-bit unsigned arguments, larger ones as 64-bit ones
+    fn a_serial(&mut self, x: u64) {
+        if x <= u32::MAX as u64 {
+            self.a_u32(x as u32);
+        } else {
+            self.a_u64(x);
+        }
+    }
     fn a_u64(&mut self, x: u64) {
         self.u32(TI_U64);
         self.u64(x);
@@ -281,10 +289,10 @@ fn mk(ecu: &str, lc: u32, verbose: bool, noar: u8, be: bool, payload: Vec<u8>) -
     m
 }
 
-fn m_flst(ecu: &str, lc: u32, be: bool, serial: u32, name: &str, size: u64, nr: u64, buf: u64, wide: bool) -> DltMessage {
+fn m_flst(ecu: &str, lc: u32, be: bool, serial: u64, name: &str, size: u64, nr: u64, buf: u64, wide: bool) -> DltMessage {
     let mut e = Enc::new(be);
     e.a_str(b"FLST");
-    e.a_u32(serial);
+    e.a_serial(serial);
     e.a_str(name.as_bytes());
     if wide {
         e.a_u64(size);
@@ -302,19 +310,19 @@ fn m_flst(ecu: &str, lc: u32, be: bool, serial: u32, name: &str, size: u64, nr: 
     e.a_str(b"FLST");
     mk(ecu, lc, true, 8, be, e.v)
 }
-fn m_flda(ecu: &str, lc: u32, be: bool, serial: u32, nr: u32, data: &[u8], last: &[u8]) -> DltMessage {
+fn m_flda(ecu: &str, lc: u32, be: bool, serial: u64, nr: u32, data: &[u8], last: &[u8]) -> DltMessage {
     let mut e = Enc::new(be);
     e.a_str(b"FLDA");
-    e.a_u32(serial);
+    e.a_serial(serial);
     e.a_s32(nr as i32);
     e.a_raw(data);
     e.a_str(last);
     mk(ecu, lc, true, 5, be, e.v)
 }
-fn m_flfi(ecu: &str, lc: u32, be: bool, serial: u32) -> DltMessage {
+fn m_flfi(ecu: &str, lc: u32, be: bool, serial: u64) -> DltMessage {
     let mut e = Enc::new(be);
     e.a_str(b"FLFI");
-    e.a_u32(serial);
+    e.a_serial(serial);
     e.a_str(b"FLFI");
     mk(ecu, lc, true, 3, be, e.v)
 }
@@ -1229,7 +1237,7 @@ fn bsizes(s: usize) -> Vec<usize> {
     v.dedup();
     v
 }
-fn tr(t: usize, ecu: &str, lc: u32, serial: u32, name: &str, s: usize, b: usize, fault: Fault) -> Tr {
+fn tr(t: usize, ecu: &str, lc: u32, serial: u64, name: &str, s: usize, b: usize, fault: Fault) -> Tr {
     Tr { ecu: ecu.into(), lc, serial, name: name.into(), content: content(t, s), b, fault }
 }
 
@@ -1384,7 +1392,7 @@ impl C17Prop {
                 (9, 9, vec![(1, 1, vec![Fault::None]), (2, 1, vec![Fault::None])], 3, false),
             ],
         };
-        let keydiff = [("ECUA", 1u32, 2u32), ("ECUB", 1, 1), ("ECUA", 2, 1), ("ECUB", 2, 2)];
+        let keydiff = [("ECUA", 1u32, 2u64), ("ECUB", 1, 1), ("ECUA", 2, 1), ("ECUB", 2, 2)];
         for (na, smax, bvars, nkd, with_unrel) in plans {
             ctx.begin_family(
                 "pair",
@@ -1445,11 +1453,12 @@ impl C17Prop {
     /// family 2b: three concurrent transfers (keys pairwise different in one component), all interleavings
     fn fam_triple(&self, ctx: &mut Ctx, sb: &Sandbox) -> Result<(), Stop> {
         let shapes: &[(usize, usize)] = ctx.tier.pick(&[(1, 1), (2, 2)][..], &[(1, 1), (2, 2), (2, 1), (3, 2)][..]);
-        ctx.begin_family("triple", &format!("A: (S,B) in {:?} all faults; B, C: S=1 B=1 no fault; keys (ECUA,1,1) (ECUA,1,2) (ECUB,1,1) and (ECUA,1,1) (ECUA,2,1) (ECUB,2,1); all interleavings", shapes));
+        ctx.begin_family("triple", &format!("A: (S,B) in {:?} all faults; B, C: S=1 B=1 no fault; keys (ECUA,1,1) (ECUA,1,2) (ECUB,1,1), (ECUA,1,1) (ECUA,2,1) (ECUB,2,1) and (ECUA,1,2^32+7) (ECUA,1,2^33+7) (ECUA,1,7) (64-bit serials); all interleavings", shapes));
         let r = (|| {
             for (s, b) in shapes {
                 for fa in faults(s.div_ceil(*b)) {
-                    for keys in [[("ECUA", 1u32, 1u32), ("ECUA", 1, 2), ("ECUB", 1, 1)], [("ECUA", 1, 1), ("ECUA", 2, 1), ("ECUB", 2, 1)]] {
+                    // (the third set: serials logged as 64-bit values that agree in their lower 32 bits, and the 32-bit serial equal to them)
+                    for keys in [[("ECUA", 1u32, 1u64), ("ECUA", 1, 2), ("ECUB", 1, 1)], [("ECUA", 1, 1), ("ECUA", 2, 1), ("ECUB", 2, 1)], [("ECUA", 1, 0x1_0000_0007), ("ECUA", 1, 0x2_0000_0007), ("ECUA", 1, 7)]] {
                         let mut c = Case {
                             family: "triple".into(),
                             cfg: Cfg { glob: Some("*".into()), ..Cfg::save_only() },
